@@ -347,15 +347,22 @@ func (g *Gen) twins(c *Case) (string, string) {
 		} else {
 			narrow = core + "{" + extra + "}"
 		}
-		if g.chance(0.08) {
+		if g.chance(0.2) {
 			// merging and propagation on one selector: a narrower twin of a selector that is
-			// itself joined one-to-one with another metric
-			other := "m"
-			if strings.HasPrefix(core, "m") || strings.Contains(core, `__name__="m"`) {
-				other = "n"
+			// itself joined one-to-one with another metric; two label matchers leave spare
+			// capacity in the parser's matcher slice, which is where a shared array shows
+			met, other := "m", "n"
+			if g.chance(0.5) {
+				met, other = "n", "m"
 			}
-			narrower := narrow[:len(narrow)-1] + "," + g.matcher() + "}"
-			return "sum(" + narrow + " + " + other + "{" + g.matcher() + "})", "sum(" + narrower + ")"
+			m1, m2, m3 := g.matcher(), g.matcher(), g.matcher()
+			wide := met + "{" + m1 + "," + m2 + "}"
+			narrower := met + "{" + m1 + "," + m2 + "," + m3 + "}"
+			oth := other + "{" + g.matcher() + "}"
+			if g.chance(0.5) {
+				return "sum(" + wide + " + " + oth + ")", "sum(" + narrower + ")"
+			}
+			return "sum(" + narrower + ")", "sum(" + oth + " * " + wide + ")"
 		}
 		if g.chance(0.12) {
 			// a merged selector as the direct argument of a function
